@@ -23,7 +23,7 @@
 From Coq Require Import Permutation Sorting.Sorted.
 From GoCar Require Import Bytes Varint Cid Header Frame V2Header Scan Index IndexGen.
 From GoCarProofs Require Import BytesFacts CidFacts HeaderFacts ScanFacts IndexSort IndexLoad IndexCanon
-  IndexRoundtrip IndexGenFacts IndexGenLookup IndexGenExamples IndexGenRog.
+  IndexRoundtrip IndexGenFacts IndexGenLookup IndexGenExamples IndexGenRog IndexGenMore.
 
 Local Notation sort_ok srt :=
   (forall l, Permutation (srt l) l /\
@@ -298,3 +298,47 @@ Theorem C03_read_or_generate_own_index_answers_exactly :
       answers_exactly o codec' roots bs i.
 Proof. exact rog_own_index_answers_exactly. Qed.
 Print Assumptions C03_read_or_generate_own_index_answers_exactly.
+
+(* ---- (6) any header; the nil-roots header ---------------------------------------------------------------
+   (1) generalised: the header may be ANY byte string the decoder accepts as a version-1 header (with
+   whatever roots) -- e.g. a non-canonical encoding -- not only [enc_header (Some roots) 1] *)
+Theorem C03_records_exact_carv1_any_header :
+  forall hdrdec k o hb r bs,
+    hdrdec hb = Some (r, 1) -> blen hb <= g_maxh o -> blen hb < two63 ->
+    blocks_ok bs -> cids_fit o bs ->
+    blen (ld hb ++ enc_sections bs) < two63 ->
+    load_index hdrdec k o (ld hb ++ enc_sections bs) = Ok (section_recs o (ld_size (blen hb)) bs).
+Proof. exact load_index_v1_any_header. Qed.
+Print Assumptions C03_records_exact_carv1_any_header.
+
+(* the header go-car writes for a nil root slice (a2 "roots" f6 "version" 01), canonical decoder:
+   no oracle hypothesis left *)
+Theorem C03_records_exact_carv1_nil_roots :
+  forall k o bs,
+    blen (enc_header None 1) <= g_maxh o -> blocks_ok bs -> cids_fit o bs ->
+    blen (ld (enc_header None 1) ++ enc_sections bs) < two63 ->
+    load_index dec_header_canon k o (ld (enc_header None 1) ++ enc_sections bs) = Ok (section_recs o 18 bs).
+Proof. exact load_index_v1_nil_roots. Qed.
+Print Assumptions C03_records_exact_carv1_nil_roots.
+
+(* ---- (7) the code AS FOUND: where it did satisfy the property (the _partial statements that go with
+   the two refutations above).  Guard (executable): the source is seekable, and -- for CARv2 -- the
+   payload has at least one section or nothing follows it. *)
+Theorem C03_records_exact_carv1_partial_as_found :
+  forall hdrdec o roots bs,
+    header_ok hdrdec o roots -> blocks_ok bs -> cids_fit o bs ->
+    blen (enc_payload roots bs) < two63 ->
+    load_index_gen hdrdec as_found SrcSeek o (enc_payload roots bs) = Ok (section_recs o (hlen roots) bs).
+Proof. exact load_index_as_found_seek_v1. Qed.
+Print Assumptions C03_records_exact_carv1_partial_as_found.
+
+Theorem C03_records_exact_carv2_partial_as_found :
+  forall hdrdec o hi lo ioff pad roots bs trailer,
+    (bs <> [] \/ trailer = []) ->
+    pragma_ok hdrdec o -> header_ok hdrdec o roots -> blocks_ok bs -> cids_fit o bs ->
+    hi < two64 -> lo < two64 -> ioff < two63 ->
+    blen (v2_container hi lo ioff pad (enc_payload roots bs) trailer) < two63 ->
+    load_index_gen hdrdec as_found SrcSeek o (v2_container hi lo ioff pad (enc_payload roots bs) trailer)
+    = Ok (section_recs o (hlen roots) bs).
+Proof. exact load_index_as_found_seek_v2. Qed.
+Print Assumptions C03_records_exact_carv2_partial_as_found.
